@@ -180,6 +180,7 @@ Inductive val :=
 | VInt (z : Z)
 | VRat (n : Z) (d : positive)     (* a float; the exact rational it must round *)
 | VTsNear (n : Z) (d : positive)  (* a timespan obtained by rounding a float near n/d to whole microseconds *)
+| VStr (s : list Z)               (* a string (code points) *)
 | VErr (e : err).
 
 Definition in_range (w : Z) : bool := (0 <=? w) && (w <? MAXWALL).
@@ -304,6 +305,66 @@ Definition y_ts_div (t : Z) (x : number) : val :=
   | NFloat (Zneg n) d => near_ts (- t * Zpos d) n
   end.
 
+(* ---- ISO-8601 text: YYYY-MM-DDTHH:MM:SS[.ffffff](Z | +HH:MM | -HH:MM | nothing) ------------
+   format: dt.format("%Y-%m-%dT%H:%M:%S.%f%:z") (for years >= 1000; the C library does not pad
+   smaller years); parse: datetime(string) (dateutil, then yaql's rule "no zone means UTC"),
+   modelled for this shape only. *)
+Definition fmt2 (n : Z) : list Z := [48 + n / 10 mod 10; 48 + n mod 10].
+Definition fmt4 (n : Z) : list Z := [48 + n / 1000 mod 10; 48 + n / 100 mod 10; 48 + n / 10 mod 10; 48 + n mod 10].
+Definition fmt6 (n : Z) : list Z :=
+  [48 + n / 100000 mod 10; 48 + n / 10000 mod 10; 48 + n / 1000 mod 10; 48 + n / 100 mod 10; 48 + n / 10 mod 10; 48 + n mod 10].
+Definition iso_zone (o : Z) : list Z :=
+  let m := Z.abs o / 60000000 in (if o <? 0 then 45 else 43) :: fmt2 (m / 60) ++ 58 :: fmt2 (m mod 60).
+Definition iso_format (d : adt) : list Z :=
+  let w := wall d in
+  fmt4 (dt_field FYear w) ++ 45 :: fmt2 (dt_field FMonth w) ++ 45 :: fmt2 (dt_field FDay w) ++ 84 ::
+  fmt2 (dt_field FHour w) ++ 58 :: fmt2 (dt_field FMinute w) ++ 58 :: fmt2 (dt_field FSecond w) ++ 46 ::
+  fmt6 (dt_field FMicrosecond w) ++ iso_zone (off d).
+
+Definition dig (c : Z) : option Z := if (48 <=? c) && (c <=? 57) then Some (c - 48) else None.
+Fixpoint take_digits (k : nat) (acc : Z) (s : list Z) : option (Z * list Z) :=
+  match k with
+  | O => Some (acc, s)
+  | S k' => match s with
+            | c :: r => match dig c with Some x => take_digits k' (10 * acc + x) r | None => None end
+            | [] => None
+            end
+  end.
+Definition expect (c : Z) (s : list Z) : option (list Z) :=
+  match s with x :: r => if x =? c then Some r else None | [] => None end.
+Definition parse_frac (s : list Z) : option (Z * list Z) :=
+  match s with
+  | 46 :: r => take_digits 6 0 r
+  | _ => Some (0, s)
+  end.
+Definition parse_zone (s : list Z) : option Z :=
+  match s with
+  | [] => Some 0                                  (* yaql: a result without zone is UTC *)
+  | [90] => Some 0                                (* Z *)
+  | sg :: r =>
+      if (sg =? 43) || (sg =? 45) then
+        match take_digits 2 0 r with
+        | Some (hh, r1) => match expect 58 r1 with
+            | Some r2 => match take_digits 2 0 r2 with
+                | Some (mm, []) => if (hh <? 24) && (mm <? 60)
+                                   then Some ((if sg =? 45 then -1 else 1) * ((hh * 60 + mm) * 60000000)) else None
+                | _ => None end
+            | None => None end
+        | None => None end
+      else None
+  end.
+Definition bind {A B} (x : option A) (f : A -> option B) : option B := match x with Some a => f a | None => None end.
+(* None = not of the modelled shape *)
+Definition iso_parse (s : list Z) : option val :=
+  bind (take_digits 4 0 s) (fun '(y, s) => bind (expect 45 s) (fun s =>
+  bind (take_digits 2 0 s) (fun '(m, s) => bind (expect 45 s) (fun s =>
+  bind (take_digits 2 0 s) (fun '(d, s) => bind (expect 84 s) (fun s =>
+  bind (take_digits 2 0 s) (fun '(h, s) => bind (expect 58 s) (fun s =>
+  bind (take_digits 2 0 s) (fun '(mi, s) => bind (expect 58 s) (fun s =>
+  bind (take_digits 2 0 s) (fun '(sec, s) =>
+  bind (parse_frac s) (fun '(us, s) =>
+  bind (parse_zone s) (fun o => Some (y_build y m d h mi sec us o)))))))))))))).
+
 (* one yaql call on host data *)
 Inductive op :=
 | OpFromTimestamp (s o : Z)                 (* datetime(timestamp, offset), timestamp given in microseconds *)
@@ -326,7 +387,9 @@ Inductive op :=
 | OpTsOp (o : tsop) (a b : Z)
 | OpTsMul (t : Z) (x : number)              (* ts * n *)
 | OpTsMulR (x : number) (t : Z)             (* n * ts *)
-| OpTsDiv (t : Z) (x : number).             (* ts / n *)
+| OpTsDiv (t : Z) (x : number)              (* ts / n *)
+| OpFormatIso (h : hdt)                     (* dt.format("%Y-%m-%dT%H:%M:%S.%f%:z") *)
+| OpParseIso (s : list Z).                  (* datetime(string) for a string of the ISO shape *)
 
 Definition eval_with (D : decls) (o : op) : val :=
   match o with
@@ -351,6 +414,8 @@ Definition eval_with (D : decls) (o : op) : val :=
   | OpTsMul t x => y_ts_mul t x
   | OpTsMulR x t => y_ts_mul t x
   | OpTsDiv t x => y_ts_div t x
+  | OpFormatIso h => VStr (iso_format (conv h))
+  | OpParseIso s => match iso_parse s with Some v => v | None => VErr TypeErr end
   end.
 Definition eval := eval_with repaired_decls.
 
@@ -358,7 +423,7 @@ Definition eval := eval_with repaired_decls.
 (* what the harness saw the real code do; a float is given exactly as n/d (d a power of two) *)
 Inductive obs :=
 | ODt (w o : Z) | ONaive (w : Z) | OTs (t : Z) | OBool (b : bool) | OInt (z : Z)
-| OFloat (n : Z) (d : positive) | OErr (e : err) | OOther.
+| OFloat (n : Z) (d : positive) | OErr (e : err) | OStr (s : list Z) | OOther.
 
 Definition err_eqb (a b : err) : bool :=
   match a, b with RangeErr, RangeErr | TypeErr, TypeErr | ZeroDiv, ZeroDiv => true | _, _ => false end.
@@ -378,6 +443,12 @@ Definition obs_match (v : val) (o : obs) : bool :=
   | VInt a, OInt b => a =? b
   | VRat n d, OFloat fn fd => float_close fn fd n d
   | VTsNear n d, OTs r => ts_near r n d
+  | VStr a, OStr b => (fix eqb (x y : list Z) : bool :=
+                         match x, y with
+                         | [], [] => true
+                         | p :: x', q :: y' => (p =? q) && eqb x' y'
+                         | _, _ => false
+                         end) a b
   | VErr a, OErr b => err_eqb a b
   | _, _ => false
   end.
@@ -411,6 +482,7 @@ Definition op_map (f : hdt -> hdt) (o : op) : op :=
   | OpTime h => OpTime (f h)
   | OpField g h => OpField g (f h)
   | OpReplace h ry rm rd rh rmi rs rus ro => OpReplace (f h) ry rm rd rh rmi rs rus ro
+  | OpFormatIso h => OpFormatIso (f h)
   | _ => o
   end.
 
